@@ -102,7 +102,7 @@ fn run_big(n: u16, blocks: u8, upgrade: bool, out: &mut Outcome) {
     // block 1: coinbase with one big output; funding tx with n outputs
     let s0 = w.scripts[0].clone();
     let s1 = w.scripts[1].clone();
-    let mut add = |w: &mut World, body: Vec<bitcoin::Transaction>, out: &mut Outcome, step: usize| -> bool {
+    let add = |w: &mut World, body: Vec<bitcoin::Transaction>, out: &mut Outcome, step: usize| -> bool {
         let p = w.model.best_tip();
         let prev = w.model.blocks[p].block.block_hash();
         let time = w.model.blocks[p].block.header.time + 1;
